@@ -332,6 +332,15 @@ func traverseMergeAnchor(newMatches *orderedmap.OrderedMap, value *CandidateNode
 		if value.Alias.Kind != MappingNode {
 			return fmt.Errorf("can only use merge anchors with maps (!!map), but got %v", value.Alias.Tag)
 		}
+		// the map this merge sits in (a merge list sits in between for `<<: [*a, *b]`)
+		mergingInto := value.Parent
+		for mergingInto != nil && mergingInto.Kind == SequenceNode {
+			mergingInto = mergingInto.Parent
+		}
+		if mergingInto == value.Alias {
+			// a map merged into itself (a: &x {<<: *x}) adds nothing; following it would never end
+			return nil
+		}
 		return doTraverseMap(newMatches, value.Alias, wantedKey, prefs, splat)
 	case SequenceNode:
 		for _, childValue := range value.Content {
